@@ -2,10 +2,10 @@ SPECIFICATION Spec
 CONSTANTS
   MaxD = 4
   MaxS = 3
-  MaxMsgs = 1
-  NbSlots <- NoSlots
-  Outs <- AllOuts
-  RecvToggles = TRUE
+  MaxMsgs = 0
+  NbSlots <- AllSlots
+  Outs <- ModeOutsThorough
+  RecvToggles = FALSE
   Mech = "repaired"
   Obs <- ObsEmit
 INVARIANTS FdFieldValidOrMinus1 OneOwnerPerDescriptor NoOrphanDescriptor AllDeletedMeansAllClosed ModesOfOpenSocketsOnly
